@@ -21,7 +21,9 @@ import (
 
 func init() {
 	// The server logs every deleted key, connection and restore step; none of that is an observation.
-	log.SetOutput(io.Discard)
+	if os.Getenv("VERIF_LOG") == "" {
+		log.SetOutput(io.Discard)
+	}
 }
 
 // Epoch is the instant every virtual clock starts at (an arbitrary fixed date, whole second).
